@@ -48,7 +48,7 @@ def check_portions(chk, fails, dis, stats):
     stats["portion_texts_exhaustive"] = len(texts)
     texts += extra
     # random long numerals
-    for _ in range(2000 if chk.tier == "quick" else 30000):
+    for _ in range(chk.size(2000, 30000)):
         la, lb = rng.randrange(1, 40), rng.randrange(1, 40)
         a = "".join(rng.choice("0123456789") for _ in range(la))
         b = "".join(rng.choice("0123456789") for _ in range(lb))
@@ -135,7 +135,7 @@ def check_roundtrip(chk, fails, dis, stats):
     """value text --(plain variable)--> value --(set_account_meta)--> text --(meta())--> value: identical"""
     rng = random.Random("C13rt-%d" % chk.seed)
     items = [(t, v) for t, vs in VALUES.items() for v in vs]
-    for _ in range(300 if chk.tier == "quick" else 5000):
+    for _ in range(chk.size(300, 5000)):
         t = rng.choice(list(VALUES))
         if t == "number":
             v = str(rng.choice([1, -1]) * rng.randrange(0, 10 ** rng.randrange(1, 40)))
